@@ -34,19 +34,20 @@ RememberedNext(n) == burnt'[n] # NoTime /\ now < burnt'[n] + NonceTTL
 
 TS2S == /\ IsEvent("s2s")
         /\ LET d == SetOf(Ev.d)
-               stage == S2SStage(Class(d), Ev.n, now + Ev.fut, Ev.fmt)
+               sh == [nvp |-> Ev.nvp, main |-> Ev.main, pos |-> Ev.pos]
+               stage == S2SStage(Class(d, Ev.audv), Ev.n, now + Ev.fut, Ev.fmt, Early(d, sh))
            IN \/ /\ ErrCode(stage) = Ev.res                                   \* conformant
-                 /\ S2SDo(d, Ev.n, Ev.fmt, Ev.fut, Ev.def, Ev.dpop, Ev.client, stage)
-                 /\ ("nononce" \notin d => (Ev.burnt <=> RememberedNext(Ev.n)))
+                 /\ S2SDo(d, Ev.n, Ev.fmt, Ev.fut, Ev.def, Ev.dpop, Ev.client, sh, Ev.audv, stage)
+                 /\ (HasNonce(d, sh) => (Ev.burnt <=> RememberedNext(Ev.n)))
               \/ /\ ErrCode(stage) # Ev.res /\ Ev.res = "issued"              \* reconstructed
-                 /\ S2SDo(d, Ev.n, Ev.fmt, Ev.fut, Ev.def, Ev.dpop, Ev.client, "issue")
+                 /\ S2SDo(d, Ev.n, Ev.fmt, Ev.fut, Ev.def, Ev.dpop, Ev.client, sh, Ev.audv, "issue")
 
 TS2SReplay ==
         /\ IsEvent("s2sreplay") /\ lastp.cls # None
-        /\ LET stage == S2SStage(lastp.cls, lastp.n, lastp.c, lastp.fmt)
+        /\ LET stage == S2SStage(lastp.cls, lastp.n, lastp.c, lastp.fmt, lastp.early)
            IN \/ /\ ErrCode(stage) = Ev.res
                  /\ S2SReplayDo(stage)
-                 /\ (lastp.cls # "nonce" => (Ev.burnt <=> RememberedNext(lastp.n)))
+                 /\ ((lastp.cls # "nonce" \/ lastp.early) => (Ev.burnt <=> RememberedNext(lastp.n)))
               \/ /\ ErrCode(stage) # Ev.res /\ Ev.res = "issued"
                  /\ S2SReplayDo("issue")
 
@@ -63,13 +64,14 @@ TAuthzResp ==
         /\ IsEvent("authzresp")
         /\ LET d == SetOf(Ev.d)
                i == SessIdx(Ev.s)
-               stage == RespStage(d, sess[i].st)
+               sh == [nvp |-> Ev.nvp, main |-> Ev.main, pos |-> Ev.pos]
+               stage == RespStage(d, sess[i].st, Ev.audv, Ev.nvp)
            IN /\ i > 0
               /\ \/ /\ (stage = "code") = (Ev.res = "code")
                     /\ (stage # "code" => Ev.res = "invalid_request")
-                    /\ AuthzDo(i, d, Ev.fmt, stage)
+                    /\ AuthzDo(i, d, Ev.fmt, sh, Ev.audv, stage)
                  \/ /\ stage # "code" /\ Ev.res = "code"
-                    /\ AuthzDo(i, d, Ev.fmt, "code")
+                    /\ AuthzDo(i, d, Ev.fmt, sh, Ev.audv, "code")
 
 TCodeToken ==
         /\ IsEvent("codetoken")
